@@ -118,11 +118,17 @@ def run_cli(chk, model):
         S = os.path.join(base, "h%d" % h)
         os.makedirs(S)
         # universe of files (relative to S) that exist before every run
-        files = ["r1/x", "r1/sub/y", "r1/sub/deep/z", "r1x/z", "r2/w", "out/v", "rel/q", "r1/dir/inner", "keep/sentinel", "r2/sub/k"]
+        files = ["r1/x", "r1/sub/y", "r1/sub/deep/z", "r1x/z", "r2/w", "out/v", "rel/q", "r1/dir/inner", "keep/sentinel", "r2/sub/k",
+                 "outside/o1", "outside/deep/o2", "outside2/o3"]
+        # symbolic links of the universe (relative to S) -> target: a stale path that IS a link is removed as a link (never followed);
+        # a link found inside a removed directory is removed, its target left alone; a dangling link is still "a path to remove"
+        links = {"r1/lnk": S + "/outside", "r1/dangling": S + "/nowhere", "r1/flink": S + "/keep/sentinel", "r1/dir/inl": S + "/outside2",
+                 "r2/rlnk": "../outside"}
         # candidate expected-output spellings
         def ab(p): return S + "/" + p
         cands = [ab("r1/x"), ab("r1/sub/y"), ab("r1/sub"), ab("r1x/z"), ab("r2/w"), ab("out/v"), "rel/q", "./rel/q",
-                 ab("r1//x"), ab("r1/dir/"), ab("r1/dir"), ab("r2/sub/k"), ab("r1x"), "", ab("r1/sub/deep/z"), ab("r2"), ab("nonexistent")]
+                 ab("r1//x"), ab("r1/dir/"), ab("r1/dir"), ab("r2/sub/k"), ab("r1x"), "", ab("r1/sub/deep/z"), ab("r2"), ab("nonexistent"),
+                 ab("r1/lnk"), ab("r1/dangling"), ab("r1/flink"), ab("r2/rlnk"), ab("r1/lnk/")]
         rootc = [ab("r1"), ab("r1/"), ab("r2//"), ab("r1/sub"), "rel", ab("r1/sub/"), ab("r"), ab("r2")]
         runs = []
         for i in range(rng.randint(2, 5)):
@@ -144,19 +150,25 @@ def run_cli(chk, model):
                 os.makedirs(os.path.dirname(p), exist_ok=True)
                 if not os.path.exists(p):
                     open(p, "w").write("x")
+            for f, tgt in links.items():
+                p = os.path.join(S, f)
+                os.makedirs(os.path.dirname(p), exist_ok=True)
+                if not os.path.lexists(p):
+                    os.symlink(tgt, p)
             bf = os.path.join(S, "build-%d.llbuild" % i)
             open(bf, "w").write(BUILD_TMPL % (", ".join(yq(x) for x in e),
                                               ("    roots: [%s]\n" % ", ".join(yq(x) for x in roots)) if roots else ""))
             rc, out, err = vlib.sh([llb, "buildsystem", "build", "--serial", "--chdir", S, "-f", bf], timeout=60)
             nruns_total += 1
-            gone = sorted(f for f in files if not os.path.exists(os.path.join(S, f)))
+            universe = files + sorted(links)
+            gone = sorted(f for f in universe if not os.path.lexists(os.path.join(S, f)))
             # expected from the model's deleted strings: a file disappears iff some deleted path is a
             # component-prefix of it (remove() is recursive); relative strings resolve against S
             dels = pred[i]
             def resolve(d):
                 return os.path.normpath(d if d.startswith("/") else os.path.join(S, d)) if d != "" else None
             exp = []
-            for f in files:
+            for f in universe:
                 full = os.path.normpath(os.path.join(S, f))
                 for d in dels:
                     rd = resolve(d)
@@ -164,15 +176,24 @@ def run_cli(chk, model):
                         exp.append(f)
                         break
             exp = sorted(exp)
+            # "<link>/" (trailing separator) names, by POSIX resolution, the directory the link points to, not the link: unlink()
+            # refuses it (ENOTDIR) and the tool reports "cannot remove"; the property's lexical reading would remove the link.
+            # Either outcome is accepted for the link itself; the target's contents must stay in both.
+            optional = set(f for f in links for d in dels if d.endswith("/") and resolve(d) == os.path.normpath(os.path.join(S, f)))
+            if optional:
+                gone_cmp = [f for f in gone if f not in optional]
+                exp = [f for f in exp if f not in optional]
+            else:
+                gone_cmp = gone
             chk.count(("cli", tuple(sorted(dels)), tuple(roots)) if dels else None)
             if h == 0 and i == 1:
                 chk.sample(dict(kind="cli-run", prior=runs[0][0], expected=e, roots=roots, model_deletes=dels, files_gone=gone))
-            if rc != 0 or gone != exp:
+            if rc != 0 or gone_cmp != exp:
                 mismatches += 1
                 # O: judge the implementation directly against the property text
                 prior = runs[i - 1][0] if i > 0 else []
                 reason = None
-                for f in gone:
+                for f in gone_cmp:
                     full = os.path.normpath(os.path.join(S, f))
                     legit = False
                     for d in prior:
